@@ -1,5 +1,5 @@
 //@ unit U-DEDUP
-//@ props C01 C02 C03 C14 C15
+//@ props C01 C02 C03 C05 C14 C15
 //@ verus-args --rlimit 200
 //@ config MAX_XORB_BYTES MAX_XORB_CHUNKS
 #![feature(allocator_api)]
